@@ -39,7 +39,7 @@ def gen_model(rng, size="small", feats=None):
         "endtime": p(0.35), "maxdur": p(0.3), "maxstops": p(0.3), "maxdist": p(0.3),
         "attrs": p(0.3), "precedence": p(0.4), "no_startloc": p(0.15), "penalties": p(0.6),
         "activation": p(0.5), "nonmetric": p(0.5), "tight": p(0.5), "user": False, "groups": False, "initial": False,
-        "colocated": False, "one_vehicle": False, "fixed_p": 0.3, "dgroups": p(0.3), "objx": p(0.35),
+        "colocated": False, "one_vehicle": False, "fixed_p": 0.3, "dgroups": p(0.3), "objx": p(0.35), "mult": False,
     }
     if feats:
         F.update(feats)
@@ -286,6 +286,15 @@ def gen_model(rng, size="small", feats=None):
                 ve["min_stops"], ve["min_stops_pen"] = rng.randint(0, 3), rng.choice([0, 5, 10])
         opts.update({"f_early": rng.choice([0, 1, 2]), "f_late": rng.choice([0, 1, 2]), "f_min_stops": rng.choice([0, 1, 1]),
                      "f_stop_balance": rng.choice([0, 1, 3])})
+    # stop duration multipliers (exact in binary floating point: halves), per vehicle
+    for ve in vehicles:
+        ve["mult"] = (1, 1)
+    opts["dis_multipliers"] = False
+    if F["mult"]:
+        for ve in vehicles:
+            if p(0.6):
+                ve["mult"] = rng.choice([(2, 1), (3, 2), (1, 2), (5, 2), (1, 1)])
+        opts["dis_multipliers"] = p(0.08)
     return {"dgroups": dgroups, "groups": groups, "user": user, "stops": stops, "vehicles": vehicles, "units": units, "arcs": arcs, "dur": dur, "dist": dist,
             "nres": nres, "res_mode": res_mode, "opts": opts, "features": {k: bool(v) for k, v in F.items() if k != "fixed_p"}}
 
@@ -489,6 +498,8 @@ def to_json(m):
                 jv["start_level"] = res_json(m, ve["start_level"])
         if ve["start_time"] is not None:
             jv["start_time"] = rfc(ve["start_time"])
+        if ve.get("mult", (1, 1)) != (1, 1):
+            jv["stop_duration_multiplier"] = ve["mult"][0] / ve["mult"][1]
         if ve.get("min_stops") or ve.get("min_stops_pen"):
             jv["min_stops"] = ve["min_stops"]
             jv["min_stops_penalty"] = float(ve["min_stops_pen"])
@@ -525,7 +536,7 @@ def to_json(m):
                        "vehicle_activation_penalty": float(o["f_activation"]), "travel_duration": float(o["f_travel"]),
                        "vehicles_duration": float(o["f_vehicles_duration"]), "unplanned_penalty": float(o["f_unplanned"]),
                        "cluster": 0.0, "stop_balance": float(o.get("f_stop_balance", 0))},
-        "properties": {"disable": {"durations": o["dis_durations"], "stop_duration_multipliers": False,
+        "properties": {"disable": {"durations": o["dis_durations"], "stop_duration_multipliers": bool(o.get("dis_multipliers")),
                                    "duration_groups": bool(o.get("dis_dgroups")), "initial_solution": False}},
         "validate": {"disable": {"start_time": False, "resources": True},
                      "enable": {"matrix": False, "matrix_asymmetry_tolerance": 20}},
@@ -573,6 +584,11 @@ def to_lines(m):
         for v, ve in enumerate(m["vehicles"]):
             if ve.get("min_stops") or ve.get("min_stops_pen"):
                 ls.append("xveh %d %d %d" % (v, ve["min_stops"], ve["min_stops_pen"]))
+    if m["features"].get("mult"):
+        ls.append("xmopt %s" % b(o.get("dis_multipliers")))
+        for v, ve in enumerate(m["vehicles"]):
+            if ve.get("mult", (1, 1)) != (1, 1):
+                ls.append("xmult %d %d %d" % (v, ve["mult"][0], ve["mult"][1]))
     if m.get("dgroups"):
         ls.append("dgopt %s" % b(o.get("dis_dgroups")))
         for g, d in m["dgroups"]:
